@@ -90,3 +90,86 @@ func VerifH_C17_TlsConfig() {
 		verifrt.Assert(c.ClientAuth == tls.NoClientCert, "no client certificate demanded unless configured")
 	}
 }
+
+// VerifH_C17_ConfiguredCAIsTheOnlyAnchor: "chains to the configured CA" means the configured CA is the ONLY trust anchor.
+// The real loadCA runs against a modelled file system and certificate-pool library (every pool constructor is a recording
+// stub: an empty pool, the system pool, clones): with `ca` configured the pool installed as RootCAs — and as ClientCAs
+// on listeners that verify client certificates — is a pool that started EMPTY, is not (a clone of) the system pool, and
+// received exactly the configured file's content, once. An unreadable or certificate-less file is a start-up error.
+func VerifH_C17_ConfiguredCAIsTheOnlyAnchor() {
+	pem := []byte("-----BEGIN CERTIFICATE-----configured-ca")
+	readFails, parseFails := verifrt.Bool("read.fails"), verifrt.Bool("pem.invalid")
+	var readPaths []string
+	verifrt.Redirect("os.ReadFile", func(name string) ([]byte, error) {
+		readPaths = append(readPaths, name)
+		if readFails {
+			return nil, errVFake
+		}
+		return pem, nil
+	})
+	var empty, tainted []*x509.CertPool
+	type appendRec struct {
+		p *x509.CertPool
+		b []byte
+	}
+	var appends []appendRec
+	verifrt.Redirect("crypto/x509.NewCertPool", func() *x509.CertPool {
+		p := new(x509.CertPool)
+		empty = append(empty, p)
+		return p
+	})
+	verifrt.Redirect("crypto/x509.SystemCertPool", func() (*x509.CertPool, error) {
+		p := new(x509.CertPool)
+		tainted = append(tainted, p)
+		return p, nil
+	})
+	verifrt.Redirect("(*crypto/x509.CertPool).Clone", func(s *x509.CertPool) *x509.CertPool {
+		p := new(x509.CertPool)
+		isEmpty := false
+		for _, e := range empty {
+			isEmpty = isEmpty || e == s
+		}
+		clean := isEmpty
+		for _, a := range appends {
+			if a.p == s {
+				clean = false // (a clone of a pool that already holds certificates is not an empty start either)
+			}
+		}
+		if clean {
+			empty = append(empty, p)
+		} else {
+			tainted = append(tainted, p)
+		}
+		return p
+	})
+	verifrt.Redirect("(*crypto/x509.CertPool).AppendCertsFromPEM", func(s *x509.CertPool, b []byte) bool {
+		appends = append(appends, appendRec{s, append([]byte(nil), b...)})
+		return !parseFails
+	})
+	cfg := &TlsConfig{CA: "/etc/mosproxy/ca.pem", VerifyClientCert: verifrt.Bool("verify-client")}
+	c, err := makeTlsConfig(cfg, false)
+	verifrt.Reach("returned")
+	if readFails || parseFails {
+		verifrt.Assert(err != nil && c == nil, "an unreadable CA file or one without a certificate is a start-up error, not an empty or default trust store")
+		return
+	}
+	verifrt.Reach("built")
+	verifrt.Assert(err == nil && c != nil && c.RootCAs != nil, "config builds with a trust root")
+	verifrt.Assert(len(readPaths) == 1 && readPaths[0] == cfg.CA, "the configured file is what is read")
+	startedEmpty := false
+	for _, p := range empty {
+		startedEmpty = startedEmpty || p == c.RootCAs
+	}
+	verifrt.Assert(startedEmpty, "the trust root starts from an empty pool: no system or other certificates next to the configured CA")
+	n := 0
+	for _, a := range appends {
+		if a.p == c.RootCAs {
+			n++
+			verifrt.Assert(verifrt.EqBytes(a.b, pem), "what is added to the trust root is the configured file's content")
+		}
+	}
+	verifrt.Assert(n == 1, "added exactly once")
+	if cfg.VerifyClientCert {
+		verifrt.Assert(c.ClientAuth == tls.RequireAndVerifyClientCert && c.ClientCAs == c.RootCAs, "client certificates are verified against that same pool")
+	}
+}
